@@ -154,3 +154,11 @@ package parse
 //@   requires ctx != nil && ctx.BaseParserRuleContext != nil
 //@   assert @store:F.sysl.%.SourceContext [location-is-own-rule-start] ownStart(stored, ctx)
 //@   assert @store:F.sysl.%.SourceContexts [one-location-appended] len(stored) == len(target.SourceContexts) + 1 && ownStart(stored[len(stored)-1], ctx)
+
+// At return the REST endpoint just (re)declared carries, as its current location and as the last entry of its
+// location list, the start of this method rule — whatever the verb.
+//@ func (*TreeShapeListener).EnterMethod_def
+//@   requires ctx != nil && ctx.BaseParserRuleContext != nil
+//@   assert @store:F.sysl.%.SourceContext [location-is-own-rule-start] ownStart(stored, ctx)
+//@   assert @store:F.sysl.%.SourceContexts [one-location-appended] len(stored) == len(target.SourceContexts) + 1 && ownStart(stored[len(stored)-1], ctx)
+//@   ensures [endpoint-location-at-return] ownStart(restEndpoint.SourceContext, ctx) && len(restEndpoint.SourceContexts) >= 1 && ownStart(restEndpoint.SourceContexts[len(restEndpoint.SourceContexts)-1], ctx)
